@@ -428,12 +428,16 @@ func TestVerifManager(t *testing.T) {
 				if free {
 					continue
 				}
-				if _, _, fatal = s.crash(vStep{A: "Crash", What: "none"}, n); fatal == nil {
+				what := ev.What
+				if what == "" {
+					what = "none"
+				}
+				if _, _, fatal = s.crash(vStep{A: "Crash", What: what, Cut: ev.Cut}, n); fatal == nil {
 					c := s.crashes[len(s.crashes)-1]
 					s.crashes = s.crashes[:len(s.crashes)-1]
 					s.abandon()
 					ns, r2, m2 := s.restartOn(c, free)
-					cev := vStep{A: "CrashRestart", What: "kill", K: n, Convs: []string{}}
+					cev := vStep{A: "CrashRestart", What: map[bool]string{true: "kill", false: what}[what == "none"], Cut: ev.Cut, K: n, Convs: []string{}}
 					if ns == nil {
 						row := vRow{Tr: tr, Sid: sc.ID, N: n, Ev: cev, Res: r2, Msg: m2, Pre: c.Pre, PreVis: c.PreVis, Order: c.Order, ExpTags: c.ExpTags, Lost: []int{}}
 						js, _ := json.Marshal(row)
